@@ -76,6 +76,18 @@ CHECKS = {
         design_ref="DESIGN.md section 3 C30, section 8",
         technique="forward must-analysis (lock held) over MIR CFG; control-dependence of mutations on exists(); call-graph reachability",
     ),
+    "C31": dict(
+        category="other",
+        text="Decides the determinism sources and the decision structure of dependency resolution in "
+             "veryl_metadata::lockfile: no time/random/pid/Uuid::new_v4 source in any of its functions (ids are new_v5), "
+             "every RandomState hash iteration there is order-insensitive, sorted before use or triaged (C24's classifier "
+             "and table); resolve_version consults the lockfile first (latest only when unlocked or force_update); a locked "
+             "release is reused only under project equality and version_req.matches; resolve_version_from_latest sorts "
+             "pubfile.releases descending by version before the first-match loop and returns only a matching release. "
+             "It does not decide 'best version' over all release histories nor save/reload equality.",
+        design_ref="DESIGN.md section 3 C31, section 8",
+        technique="who-may-call scan; iterator data-flow classification; forward must-analysis; comparator closure shape",
+    ),
 }
 
 NA_SEMANTIC = {
